@@ -175,6 +175,25 @@ Proof. exact (uninit_sound uninits uninit_ok_all). Qed.
 Goal True. idtac "ASSUMPTIONS uninitialised_memory_only_in_empty". Abort.
 Print Assumptions uninitialised_memory_only_in_empty.
 
+Lemma empty_uses_ok_all : forallb eu_initialised empty_uses = true.
+Proof. vm_compute. reflexivity. Qed.
+
+(* every CALL of synapgrad.empty in the package (rows empty_uses; today: weight/bias of Linear, Conv1d, Conv2d, BatchNorm) is in a
+   constructor, stores its result in an attribute of self, and that attribute is overwritten — by an nn.init function that
+   replaces .data completely (uniform_/normal_/constant_/ones_/zeros_/xavier_*/kaiming_*: checked on nn/init.py's AST) — after
+   the allocation, in the constructor or a method it calls, under guards that are all established by the allocation's own guard
+   context (flag:P for a never-rebound constructor flag P / self.P, notnone:X for the attribute itself, an enclosing `if` of the
+   allocation by identity).  So no uninitialised heap content survives construction, whatever the option combination.
+   eu_initialised is computed by the translator and is false for whatever it cannot establish (fail-safe); the rule and its
+   assumptions (no subclass outside the file overrides the reset method; attributes are not rebound reflectively) are stated at
+   class EmptyAnalysis.  Together with uninitialised_memory_only_in_empty: np.empty is reached only through synapgrad.empty, and
+   every internal use of synapgrad.empty is initialised. *)
+Theorem empty_results_fully_initialised :
+  forall r, In r empty_uses -> eu_initialised r = true.
+Proof. exact (empty_uses_sound empty_uses empty_uses_ok_all). Qed.
+Goal True. idtac "ASSUMPTIONS empty_results_fully_initialised". Abort.
+Print Assumptions empty_results_fully_initialised.
+
 (* ---- non-vacuity ------------------------------------------------------------------------------------------------------------ *)
 (* the census is not empty and contains the sites the property names *)
 Example census_names_the_sites :
@@ -195,6 +214,12 @@ Example census_covers_all_modules :
     ["tensor.py"; "utils.py"; "functional.py"; "cpu_ops.py"; "conv_tools.py"; "device.py"; "nn/init.py"; "nn/layers.py";
      "nn/losses.py"; "nn/activations.py"; "nn/modules.py"; "nn/functional.py"; "nn/utils/data.py"; "nn/utils/train.py";
      "optim/optimizers.py"; "visual/graph.py"] = true.
+Proof. vm_compute. reflexivity. Qed.
+
+(* the empty-use rows exist (the allocation of Linear's weight is one of them) *)
+Example census_empty_rows :
+  existsb (fun r => str_eqb (eu_file r) "nn/layers.py" && str_eqb (eu_func r) "Linear.__init__" && str_eqb (eu_attr r) "weight"
+                    && eu_initialised r) empty_uses = true.
 Proof. vm_compute. reflexivity. Qed.
 
 (* the set rows exist: the two sets of the numeric path *)
